@@ -149,15 +149,14 @@ def run(pid, P, a, seed, t0):
         if out[0] == "unbound":
             degraded.append((q, out[1]))
         elif out[0] == "error":
+            # the function left the verifier's reach (unsupported construct / library call without a model): it is decided
+            # by the bounded stand-in (run-time contract monitoring); without a failing input this stays a checker error
             errors.append((q, out[1]))
+            degraded.append((q, "outside the verifier's reach: " + out[1][:300]))
         else:
             r = out[1]
             results.append(r)
             all_obls.extend(r.obligations)
-    if errors:
-        for q, e in errors:
-            print(f"CHECKER-ERROR property={pid}: {q}: {e}")
-        return 3
     driver_info = None
     if P.get("driver") == "datasets":
         from pyvc import datasets_check
@@ -303,12 +302,14 @@ def run(pid, P, a, seed, t0):
     # ---- degraded functions and thorough tier: bounded monitoring of the run-time contracts
     monitor = []
     mon_funcs = list(dict.fromkeys([q for q, _ in degraded] + (P["functions"] if a.tier == "thorough" else P.get("monitor_quick", []))))
+    deg_set = {q for q, _ in degraded}
     for q in mon_funcs:
         c = db.get(q)
         if c is None or c.opts.get("no_rt"):
             continue
         hid = hashlib.sha1(q.encode()).hexdigest()[:8]
-        found = search_input(q, "mon" + hid, seeds=(0, 1, 2, 3) if a.tier == "thorough" else (0,), n=4000 if a.tier == "thorough" else 800)
+        deep = a.tier == "thorough" or q in deg_set
+        found = search_input(q, "mon" + hid, seeds=(0, 1, 2, 3) if deep else (0,), n=4000 if deep else 600)
         monitor.append(q)
         if found:
             violations.append((found[0], None, True))
@@ -357,6 +358,10 @@ def run(pid, P, a, seed, t0):
         print(f"   failed: {o.status} {o.name}")
     for q, why in degraded:
         print(f"   degraded: {q}: {why}")
+    if errors and not violations:
+        for q, e in errors:
+            print(f"CHECKER-ERROR property={pid}: {q}: {e}")
+        return 3
     if violations:
         for path, ob, concrete in violations[:1]:
             rel = os.path.relpath(path, VERIF)
